@@ -12,18 +12,18 @@ import subprocess
 import sys
 import tempfile
 import time
+from typing import Any
 
 VERIF = os.path.dirname(os.path.dirname(os.path.abspath(__file__)))
 PY = sys.executable
 
 # (property, name, file, old, new)
-MUTANTS: list[tuple[str, str, str, str, str]] = [
+MUTANTS: list[tuple[str, str, Any, str, str]] = [
 	('C04', 'loader-unload-keeps-symbols', 'rogw/tranp/providers/module.py', '		self.db.unload(module_path.path)\n', ''),
 	('C04', 'entrypoints-unload-noop', 'rogw/tranp/syntax/ast/entrypoints.py', '		if module_path in self.__entrypoints:\n			del self.__entrypoints[module_path]\n', '		pass\n'),
 	('C04', 'symboldb-unload-by-prefix', 'rogw/tranp/semantics/reflection/db.py', 'in_module_keys = [key for key in self.__items.keys() if self.__paths[key][0] == module_path]', 'in_module_keys = [key for key in self.__items.keys() if self.__paths[key][0].startswith(module_path)]'),
 	('C04', 'depends-stack-reads-bottom', 'rogw/tranp/implements/cpp/transpiler/py2cpp.py', '		depends = self.__stack_on_depends[-1].copy()\n', '		depends = self.__stack_on_depends[0].copy()\n'),
 	('C04', 'depends-stack-never-popped', 'rogw/tranp/implements/cpp/transpiler/py2cpp.py', '		self.__stack_on_depends.append([])\n		result = self.__procedure.exec(node)\n		self.__stack_on_depends.pop()\n', '		if not self.__stack_on_depends:\n			self.__stack_on_depends.append([])\n		result = self.__procedure.exec(node)\n'),
-	('C04', 'node-resolver-shared-between-modules', 'rogw/tranp/app/config.py', "		'rogw.tranp.module.modules.Modules': 'rogw.tranp.module.modules.Modules',\n", "		'rogw.tranp.module.modules.Modules': 'rogw.tranp.module.modules.Modules',\n		'rogw.tranp.syntax.node.resolver.NodeResolver': 'rogw.tranp.syntax.node.resolver.NodeResolver',\n"),
 	('C05', 'tree-identity-without-mtime', 'rogw/tranp/implements/syntax/lark/parser.py', "\t\t\t'mtime': str(self.__sources.mtime(source_path)),\n", ''),
 	('C05', 'symbol-identity-without-imports', 'rogw/tranp/module/module.py', "		depends_files = [module_path_to_filepath(import_node.import_path.tokens, f'.{self.module_path.language}') for import_node in self.entrypoint.imports]\n", '		depends_files = []\n'),
 	('C05', 'cache-enabled-flag-inverted-for-dummy', 'rogw/tranp/cache/cache.py', 'ctor = CachedProxy if self.__setting.enabled else CachedDummy', 'ctor = CachedProxy'),
@@ -38,7 +38,13 @@ MUTANTS: list[tuple[str, str, str, str, str]] = [
 	('C07', 'quotation-without-existence-check', 'rogw/tranp/view/error_render.py', '		if not os.path.exists(filepath):\n			return []\n', ''),
 	('C07', 'ancestor-uses-list-index', 'rogw/tranp/syntax/node/query.py', 'index = elems.index(tag) if tag in elems else -1', 'index = elems.index(tag)'),
 	('C07', 'preprocess-lets-builtin-exceptions-through', 'rogw/tranp/providers/module.py', "			except Exception as e:\n				raise Errors.Fatal(module, 'Unhandled error', e) from e\n", '			except Exception as e:\n				raise\n'),
-	('C10', 'resolver-caches-by-symbol', 'rogw/tranp/syntax/node/resolver.py', '		if full_path in self.__insts:\n			return self.__insts[full_path]\n', '		if symbol in self.__insts and symbol == \'var\':\n			return self.__insts[symbol]\n		if symbol == \'var\':\n			full_path_key = symbol\n		if full_path in self.__insts:\n			return self.__insts[full_path]\n'),
+	('C09', 'exec-reuses-the-current-stack', 'rogw/tranp/semantics/procedure.py', '		self.__stacks.append([])\n		try:', '		self.__stacks.append(self.__stacks[-1] if self.__stacks else [])\n		try:'),
+	('C09', 'exec-without-finally', 'rogw/tranp/semantics/procedure.py', '		try:\n			return self.__exec_impl(root)\n		finally:\n			self.__stacks.pop()\n', '		result = self.__exec_impl(root)\n		self.__stacks.pop()\n		return result\n'),
+	('C09', 'event-built-in-forward-property-order', 'rogw/tranp/semantics/procedure.py', '			prop_keys = reversed(node.prop_keys())\n', '			prop_keys = node.prop_keys()\n'),
+	('C09', 'list-length-at-least-one', 'rogw/tranp/semantics/procedure.py', '					counts = len(getattr(node, prop_key))\n', '					counts = max(1, len(getattr(node, prop_key)))\n'),
+	('C09', 'list-results-not-reversed-back', 'rogw/tranp/semantics/procedure.py', '					event[prop_key] = list(reversed([self.__stack_pop() for _ in range(counts)]))\n', '					event[prop_key] = [self.__stack_pop() for _ in range(counts)]\n'),
+	('C09', 'prop-keys-cache-shared-with-subclasses', 'rogw/tranp/syntax/node/node.py', "		key = f'__{cls.__name__}_{cls.prop_keys.__name__}__'\n", "		key = '__prop_keys_cache__'\n"),
+	('C10', 'candidate-order-depends-on-instantiation-count', 'rogw/tranp/syntax/node/resolver.py', '		for ctor in ctors:\n', '		for ctor in (ctors if len(self.__insts) % 7 else list(reversed(ctors))):\n'),
 	('C10', 'memo-key-collision-children-expand', 'rogw/tranp/syntax/node/query.py', "return self.__memo.get(f'children.{via}', factory)", "return self.__memo.get(f'expand.{via}', factory)"),
 	('C10', 'index-form-only-for-three-or-more', 'rogw/tranp/syntax/ast/finder.py', 'indivisual = len(tag_of_indexs[entry_tag]) == 1', 'indivisual = len(tag_of_indexs[entry_tag]) <= 2'),
 	('C10', 'pluck-ignores-index-zero', 'rogw/tranp/syntax/ast/finder.py', 'if index >= 0 and index < len(children):', 'if index > 0 and index < len(children):'),
@@ -67,20 +73,22 @@ MUTANTS: list[tuple[str, str, str, str, str]] = [
 ]
 
 
-def make_mutant(file: str, old: str, new: str) -> str:
-	"""Scratch copy of the repository (outside /repo and /verif) with one replacement applied."""
+def make_mutant(file: Any, old: str, new: str) -> str:
+	"""Scratch copy of the repository (outside /repo and /verif) with one replacement (or a list of (file, old, new)) applied."""
 	root = tempfile.mkdtemp(prefix='tranpmut-', dir='/dev/shm' if os.path.isdir('/dev/shm') else None)
 	repo = os.environ.get('TRANPSIM_BASE_REPO', '/repo')
 	for name in ('rogw', 'data', 'example'):
 		shutil.copytree(os.path.join(repo, name), os.path.join(root, name), ignore=shutil.ignore_patterns('__pycache__'))
-	path = os.path.join(root, file)
-	with open(path) as f:
-		src = f.read()
-	if src.count(old) != 1:
-		shutil.rmtree(root, ignore_errors=True)
-		raise SystemExit(f'mutant pattern matches {src.count(old)} times in {file}: {old!r}')
-	with open(path, 'w') as f:
-		f.write(src.replace(old, new))
+	edits = file if isinstance(file, list) else [(file, old, new)]
+	for f, o, n in edits:
+		path = os.path.join(root, f)
+		with open(path) as fh:
+			src = fh.read()
+		if src.count(o) != 1:
+			shutil.rmtree(root, ignore_errors=True)
+			raise SystemExit(f'mutant pattern matches {src.count(o)} times in {f}: {o!r}')
+		with open(path, 'w') as fh:
+			fh.write(src.replace(o, n))
 	return root
 
 
